@@ -41,13 +41,14 @@ type Scenario struct {
 	Preempt  bool
 	ChunkP0  float64
 	FastPath int64
+	PipeCap  int
 }
 
 func (sc *Scenario) describe() []string {
 	var out []string
 	out = append(out, fmt.Sprintf("options: explicit-root=%v(%q) no-recurse=%v output-file=%q plugin-api=%v fail-module=%d(%s)",
 		sc.ExplicitRoot, sc.RootRel, sc.NoRecurse, sc.OutputFile, sc.PluginAPI, sc.FailModule, sc.FailKind))
-	out = append(out, fmt.Sprintf("simulator: strategy=%d switchP=%.2f preempt=%v chunkP0=%.2f fastPathFrameSize=%d", sc.Strat, sc.SwitchP, sc.Preempt, sc.ChunkP0, sc.FastPath))
+	out = append(out, fmt.Sprintf("simulator: strategy=%d switchP=%.2f preempt=%v chunkP0=%.2f fastPathFrameSize=%d pipeCapacity=%d", sc.Strat, sc.SwitchP, sc.Preempt, sc.ChunkP0, sc.FastPath, sc.PipeCap))
 	for _, p := range sc.Plugins {
 		out = append(out, "plugin "+p.String())
 		for _, f := range p.Files {
@@ -74,7 +75,11 @@ func genSimKnobs(sc *Scenario) {
 	sc.Preempt = simrt.Choice("sim.preempt", 2) == 1
 	sc.ChunkP0 = chunkp[simrt.Choice("sim.chunkp0", len(chunkp))]
 	sc.FastPath = fastp[simrt.Choice("sim.fastpath", len(fastp))]
+	sc.PipeCap = pipeCaps[simrt.Choice("sim.pipe-capacity", len(pipeCaps))]
 }
+
+// pipeCaps: mostly the usual 64 KiB; small capacities make writers block in the middle of a frame.
+var pipeCaps = []int{0, 0, 4096, 64, 7}
 
 // genScript draws one plugin script. faultP is the probability of a fault per step.
 func genScript(name string, faultP float64, idx int) *Script {
@@ -280,6 +285,7 @@ func RunOne(cfg simrt.Config, o world.Opts) *world.Result {
 		s.SetStrategy(sc.Strat, sc.SwitchP, 400)
 		s.Preempt = sc.Preempt
 		s.ChunkP0 = sc.ChunkP0
+		s.PipeCap = sc.PipeCap
 		if sc.FastPath > 0 {
 			simrt.SetKnob("frame.fastPathFrameSize", sc.FastPath)
 		}
